@@ -4,8 +4,8 @@ from ..pyvc.engine import Registry
 
 def build():
     reg = Registry()
-    from . import hypergraph
-    mods = [hypergraph]
+    from . import hypergraph, directed
+    mods = [hypergraph, directed]
     for m in mods:
         if hasattr(m, "LAYOUT"):
             reg.add_layout(m.LAYOUT)
